@@ -26,7 +26,7 @@ def _deplist(k):
     return SObj(f"deprecated[{k}]", fields={"__contains__": SStub(contains, f"x in deprecated[{k}]")})
 
 
-def _is_dep_setup(has_none, has_cat):
+def _is_dep_setup(has_none, has_cat, cat_default):
     def setup(it, args):
         d = {}
         if has_none:
@@ -36,7 +36,15 @@ def _is_dep_setup(has_none, has_cat):
         depmap = SDict(d)
         self = args["self"]
         self.fields["get_context_optionmap"] = SStub(lambda i, a, k: depmap, "get_context_optionmap('deprecated')")
-        self.fields["default_scheme"] = SStub(lambda i, a, k: SStr(DEF["None" if i.resolve(a[0]) is None else "cat"], "str"), "default_scheme(category)")
+        # the REAL default_scheme() runs on the map _init_default_schemes leaves behind: an entry for the category only when
+        # it has a default of its own, else the category falls back to the default category's entry
+        dm = {None: SStr(DEF["None"], "str")}
+        if cat_default:
+            dm["cat"] = SStr(DEF["cat"], "str")
+        else:
+            it.run.assume(DEF["cat"] == DEF["None"])
+        self.fields["_default_schemes"] = SDict(dm)
+        self.fields["schemes"] = ("some_scheme",)
         it.run.assume(z3.And(DEF["None"] != z3.StringVal("auto"), DEF["cat"] != z3.StringVal("auto")))
         return None
 
@@ -71,11 +79,11 @@ def _dep_spec(has_none, has_cat, category):
 
 
 CONTRACTS = []
-for has_none, has_cat, category in itertools.product((False, True), (False, True), (None, "cat")):
+for has_none, has_cat, category, cat_default in itertools.product((False, True), (False, True), (None, "cat"), (False, True)):
     CONTRACTS.append(Contract(
-        f"is_deprecated_with_flag[None-list={has_none} cat-list={has_cat} category={category!r}]", f"{C}::_CryptConfig.is_deprecated_with_flag",
-        params={"self": Obj(), "scheme": Str(), "category": Const(category)},
-        setup=_is_dep_setup(has_none, has_cat),
+        f"is_deprecated_with_flag[None-list={has_none} cat-list={has_cat} category={category!r} category-default={cat_default}]", f"{C}::_CryptConfig.is_deprecated_with_flag",
+        params={"self": Obj(cls=(C, "_CryptConfig")), "scheme": Str(), "category": Const(category)},
+        setup=_is_dep_setup(has_none, has_cat, cat_default),
         requires=["scheme != 'auto'"],
         ensures=[("deprecated exactly per the category's list (own, else inherited; 'auto' = all but the category's default)", _dep_spec(has_none, has_cat, category))],
         descr="every scheme name, every list content (membership abstract), every default",
